@@ -26,6 +26,15 @@ ASSUMPTIONS = ["PySCF AO integrals, SCF energy and nuclear repulsion", "numpy/sc
                "(the solver then uses PySCF's singlet-only direct_spin0 by design)"]
 SHARDS = {"quick": 4, "thorough": 16}
 
+FCI_DEGENERATE_SIG = "fci-solver:degenerate-ground-level-returns-excited-root"
+
+def fci_degenerate_class(c):
+    """Exclusion predicate for FCI_DEGENERATE_SIG (used only after the listed finding was re-observed): restricted
+    open-shell molecules of the ring / symmetric families, where exactly degenerate ground levels occur."""
+    m = c["mol"]
+    return (not m["uhf"]) and m["spin"] != 0 and (m["family"] in ("H4-ring", "H3-triangle", "H6-ring") or m["family"] in getattr(M, "SYMMETRIC_FAMILIES", ()))
+
+
 TOL_E = 1e-6      # energies through SCF-based pipelines
 TOL_X = 1e-6      # same orbitals on both sides; openfermion drops/rounds individual coefficients at its 1e-8 tolerance, which
                   # on near-symmetric molecules (many ~1e-8 integrals) adds up to a few 1e-8 in matrix elements
@@ -170,6 +179,18 @@ def check_molecule(ctx, case):
                 e_t, _ = M.ci_energy(mcase, mol, part=q)
                 waived = abs(e_t - e_ci) < TOL_X
             if not waived:
+                # one specific root cause has its own signature: the sector's ground level is (numerically exactly) degenerate
+                # and FCISolver returns a HIGHER eigenvalue of the same sector (PySCF's kernel leaves its exact-diagonalisation
+                # shortcut when the two lowest eigenvalues coincide and Davidson then converges to an excited root)
+                from vlib import refchem
+                mo_a, mo_b = M.mo_pair(mol)
+                spec = refchem.sector_spectrum(M.pyscf_mole(mcase), mo_a, mo_b, p["keep_a"], p["keep_b"], p["focc_a"], p["focc_b"], p["na"], p["nb"])
+                degenerate = len(spec) > 1 and abs(spec[1] - spec[0]) < 1e-9
+                excited = e_fci > e_ci and bool(np.min(np.abs(spec[1:] - e_fci)) < TOL_E) if len(spec) > 1 else False
+                if degenerate and excited:
+                    raise Fail(f"FCISolver={e_fci} is an excited eigenvalue of the target sector; its ground level {e_ci} is two-fold "
+                               f"(or more) degenerate (sector spectrum starts {[float(x) for x in spec[:4]]})",
+                               sig=FCI_DEGENERATE_SIG)
                 raise Fail(f"FCISolver={e_fci}, determinant-space CI with the same frozen orbitals={e_ci}",
                            sig="fci-solver-vs-ci-oracle:" + ("frozen" if mol.frozen_mos is not None else "full"))
             labels.add("fci-waived-triplet-ground-state")
@@ -255,7 +276,7 @@ def energies(ctx):
     # search by construction so that no budget goes into shrinking a known failure
     ctx.search("energies", cases(M.molecules(**_bounds(ctx)).filter(lambda m: not padded_register({"mol": m}))),
                lambda c: check_molecule(ctx, c),
-               exclusions={PHANTOM_SIG: padded_register}, shrink_calls=60 if ctx.tier == "quick" else 300)
+               exclusions={PHANTOM_SIG: padded_register, FCI_DEGENERATE_SIG: fci_degenerate_class}, shrink_calls=60 if ctx.tier == "quick" else 300)
 
 
 @st.composite
@@ -280,7 +301,7 @@ def uhf_perspin_molecules(draw):
 @part("uhf_perspin", quick=16, thorough=800)
 def uhf_perspin(ctx):
     ctx.search("uhf_perspin", cases(uhf_perspin_molecules()), lambda c: check_molecule(ctx, c),
-               exclusions={PHANTOM_SIG: padded_register}, shrink_calls=8 if ctx.tier == "quick" else 100)
+               exclusions={PHANTOM_SIG: padded_register, FCI_DEGENERATE_SIG: fci_degenerate_class}, shrink_calls=8 if ctx.tier == "quick" else 100)
 
 
 @part("open_shell_frozen", quick=20, thorough=800)
@@ -292,7 +313,7 @@ def open_shell_frozen(ctx):
     ctx.search("symmetric", cases(M.molecules(families=list(M.SYMMETRIC_FAMILIES) + ["H4-ring", "BeH2"], invalid=False,
                                               exact_symmetry=True, **_bounds(ctx)).filter(lambda m: not padded_register({"mol": m}))),
                lambda c: check_molecule(ctx, c), frac=0.4,
-               exclusions={PHANTOM_SIG: padded_register}, shrink_calls=60 if ctx.tier == "quick" else 300)
+               exclusions={PHANTOM_SIG: padded_register, FCI_DEGENERATE_SIG: fci_degenerate_class}, shrink_calls=60 if ctx.tier == "quick" else 300)
 
 
 # ====================================================================================================== histories
